@@ -1,6 +1,7 @@
 // Hyrax verifier (hyrax/mod.rs) and helpers  (C10, C02, C03, C11, C17)
 //@use core ops_gen labeled_comm sponge std ser
 //@spec ring vec_spec hyrax_spec
+//@typemap /\bF::/ => Fr::
 //@typemap /<G>/ => 
 //@typemap /Self::VerifierKey/ => HyraxUniversalParams
 //@typemap /Self::Proof/ => Vec<HyraxProof>
@@ -29,9 +30,28 @@ pub fn inner_product(v1: &[Fr], v2: &[Fr]) -> (r: Fr)
 //@closure |(li, ri)| => |q: (&Fr, &Fr)| -> (r: Fr) ensures r@ == f_mul(q.0@, q.1@) ;; let (li, ri) = q;
 //@end
 
-// tensor_prime (hyrax/utils.rs) uses Iterator::chain, outside the supported subset: taken by contract (length only)
-pub uninterp spec fn tensor_prime_spec(v: Seq<FS>) -> Seq<FS>;
-#[verifier::external_body] pub fn tensor_prime(values: &[Fr]) -> (r: Vec<Fr>) ensures fviews(r@) == tensor_prime_spec(fviews(values@)) { unimplemented!() }
+// tensor_prime (hyrax/utils.rs).  `a.chain(b).collect()` is rewritten to `collect a; collect b; append` (definition of Iterator::chain)
+//@fn id=hyrax.tensor_prime file=poly-commit/src/hyrax/utils.rs scope=top name=tensor_prime props=C01,C10
+pub fn tensor_prime(values: &[Fr]) -> (r: Vec<Fr>)
+    ensures
+        fviews(r@) == tensor_prime_spec(fviews(values@)), r@.len() == vstd::arithmetic::power2::pow2(values@.len()),   // name=hyrax.tensor_prime.all_products_of_the_coordinates_or_their_complements props=C01,C10
+    decreases values@.len(),
+//@body
+//@rw 1 /return vec!\[F::one\(\)\];/ => let one__ = vec_one1(); proof { assert(fviews(one__@) =~= tensor_prime_spec(fviews(values@))); vstd::arithmetic::power2::lemma2_to64(); } return one__;
+//@rw 1 /tensor_prime\(&values\[1\.\.\]\)/ => tensor_prime(slice_from1(values))
+//@rw 1 /(?s)cfg_iter!\(tail\)\s*\.map\(\|v\| (.*?)\)\s*\.chain\(cfg_iter!\(tail\)\.map\(\|v\| (.*?)\)\)\s*\.collect\(\)/ => { let mut a__: Vec<Fr> = tail.iter().map(|v: &Fr| -> (o: Fr) ensures o@ == f_mul(v@, f_sub(f_one(), val@)) { \1 }).collect();
+        let mut b__: Vec<Fr> = tail.iter().map(|v: &Fr| -> (o: Fr) ensures o@ == f_mul(v@, val@) { \2 }).collect();
+        a__.append(&mut b__);
+        proof {
+            let vs = fviews(values@); let t = tensor_prime_spec(vs.subrange(1, vs.len() as int));
+            assert(fviews(values@.subrange(1, values@.len() as int)) =~= vs.subrange(1, vs.len() as int));
+            assert(fviews(a__@) =~= tensor_prime_spec(vs));
+            lemma_tensor_prime_len(vs);
+        }
+        a__ }
+//@end
+#[verifier::external_body] pub fn vec_one1() -> (r: Vec<Fr>) ensures r@.len() == 1, r@[0]@ == f_one() { unimplemented!() }       // vec![F::one()]
+#[verifier::external_body] pub fn slice_from1(v: &[Fr]) -> (r: &[Fr]) requires v@.len() >= 1 ensures r@ == v@.subrange(1, v@.len() as int) { unimplemented!() }   // &v[1..]
 
 pub struct HyraxPC;
 impl HyraxPC {
